@@ -2,6 +2,7 @@ import Driver.Circ
 import Driver.BuilderOps
 import Driver.ArithOps
 import Driver.TypesCodec
+import Driver.BristolOps
 /-! gvdriver — the model side of the correspondence checks: one JSON case per line on stdin,
 one JSON result per line on stdout. Imports models only (no proofs, no Mathlib). -/
 open Lean GVD
@@ -15,6 +16,8 @@ def handle (case : Json) : Json :=
   | "convert" => convertOp case
   | "arith" => arithOp case
   | "literal_check" => literalCheck case
+  | "bristol_export" => bristolExport case
+  | "bristol_import" => bristolImport case
   | op => Json.mkObj [("error", s!"unknown op {op}")]
 
 partial def loop (h : IO.FS.Stream) (out : IO.FS.Stream) : IO Unit := do
